@@ -195,6 +195,12 @@ def obligations(tier, seed):
         note="switch(idx, chms): entries of chm k are valid iff idx == k, for all integers idx")
     add("switch|set", lambda a, b, c, i: (C.switch(i, [C["x"].set(a), C["y"].set(b)]) | C["x"].set(c),
                                           RM.switch(i, [RM.leaf(a).extend("x"), RM.leaf(b).extend("y")]) | RM.leaf(c).extend("x")), (v1, v2, v3, I))
+    add("set|switch", lambda a, b, c, i: (C["x"].set(c) | C.switch(i, [C["x"].set(a), C["y"].set(b)]),
+                                          RM.leaf(c).extend("x") | RM.switch(i, [RM.leaf(a).extend("x"), RM.leaf(b).extend("y")])), (v1, v2, v3, I),
+        note="switch as the RIGHT operand of |: the left map's value wins at shared addresses")
+    add("masked-set|switch", lambda a, b, c, i, f: (C["x"].set(c).mask(f) | C.switch(i, [C["x"].set(a), C["y"].set(b)]),
+                                                  RM.leaf(c).extend("x").mask(f) | RM.switch(i, [RM.leaf(a).extend("x"), RM.leaf(b).extend("y")])), (v1, v2, v3, I, T),
+        assume=lambda a, b, c, i, f: [i[()] >= 0, i[()] <= 1], note="masked left operand falls through to the active switch branch (in-range indices)")
     # ---- filter / get_submap
     add("filter(at[x])", lambda a, b: ((C["x"].set(a) | C["y", "z"].set(b)).filter(S.at["x"]), (RM.leaf(a).extend("x") | RM.leaf(b).extend("y", "z")).filter({("x",)})), (v1, v2))
     add("filter(~at[x])", lambda a, b: ((C["x"].set(a) | C["y", "z"].set(b)).filter(~S.at["x"]), (RM.leaf(a).extend("x") | RM.leaf(b).extend("y", "z")).filter({("y", "z")})), (v1, v2))
